@@ -51,7 +51,8 @@ impl UnitSet {
             .map(|(unit, p)| (unit.dimension(), p))
             .filter(|(dim, _p)| *dim != Dimension::None)
             .fold(BTreeMap::new(), |mut map, (dim, power)| {
-                *map.entry(dim).or_insert(0) += *power;
+                let p = map.entry(dim).or_insert(0);
+                *p = add_pow(*p, *power);
                 map
             })
             .into_iter()
@@ -67,7 +68,8 @@ impl UnitSet {
             .map(|(unit, p)| (CssDimension::from(unit.dimension()), p))
             .filter(|(dim, _p)| *dim != CssDimension::None)
             .fold(BTreeMap::new(), |mut map, (dim, power)| {
-                *map.entry(dim).or_insert(0) += *power;
+                let p = map.entry(dim).or_insert(0);
+                *p = add_pow(*p, *power);
                 map
             })
             .into_iter()
@@ -128,11 +130,11 @@ impl UnitSet {
                     {
                         if ap.abs() > bp.abs() {
                             factor *= f.powi((*bp).into());
-                            *ap += *bp;
+                            *ap = add_pow(*ap, *bp);
                             *bp = 0;
                         } else {
                             factor /= f.powi((*ap).into());
-                            *bp += *ap;
+                            *bp = add_pow(*bp, *ap);
                             *ap = 0;
                         }
                     }
@@ -144,6 +146,14 @@ impl UnitSet {
     }
 }
 
+/// Add two unit exponents.
+///
+/// The result saturates at ±127 rather than overflowing, which also
+/// means negating or taking the absolute value of an exponent is safe.
+fn add_pow(a: i8, b: i8) -> i8 {
+    a.saturating_add(b).max(-i8::MAX)
+}
+
 impl Div for &UnitSet {
     type Output = UnitSet;
     fn div(self, rhs: Self) -> Self::Output {
@@ -151,7 +161,7 @@ impl Div for &UnitSet {
         'rhs: for (ru, rp) in &rhs.units {
             for (lu, lp) in &mut result.units {
                 if lu == ru {
-                    *lp -= rp;
+                    *lp = add_pow(*lp, -rp);
                     continue 'rhs;
                 }
             }
@@ -168,7 +178,7 @@ impl Mul for &UnitSet {
         'rhs: for (ru, rp) in &rhs.units {
             for (lu, lp) in &mut result.units {
                 if lu == ru {
-                    *lp += rp;
+                    *lp = add_pow(*lp, *rp);
                     continue 'rhs;
                 }
             }
